@@ -41,11 +41,18 @@ for _ in range(N):
     guard.__enter__()
     try:
         bc = BeaconConfig(block)
+        if rng.random() < 0.5:
+            # an unparsed mapping asked for first: raw value bytes for every setting, and no influence on the other views
+            it_ = rng.choice(["name", "const", "enum"])
+            unparsed = bc.settings_map(index_type=it_, parse=False)
+            okv = all(isinstance(v_, (bytes, bytearray)) for v_ in unparsed.values())
+        else:
+            okv = True
         got = [(s.index.value, s.type.value, s.length, s.value) for s in bc.settings_tuple]
         want = [(i, t, len(v), v) for i, t, v in settings]
         ok = got == want or (not settings and got == [])
         # when the block has no terminator trailing bytes may start another (garbage) record: compare the prefix only
-        ok = got[:len(want)] == want
+        ok = got[:len(want)] == want and okv
         def val(t, v):
             # SHORT / INT are exposed as the unsigned 16 / 32-bit integer in the first 2 / 4 value bytes
             return int.from_bytes(v[:2], "big") if t == 1 else int.from_bytes(v[:4], "big") if t == 2 else v
